@@ -7,7 +7,7 @@ INFO = {
             "schedules are enumerated; samples and value-like parameters (constants, LFSR mask/seed/length, access code, allowed differences) are symbolic. "
             "Both the one-shot and the scheduled delivery are compared element-wise and in count with a reference written from the documentation.",
     "bounds": "input length 3..4 (2 for float pipelines), capacity 2..3, delay 0..2, skip 0..3, interp/deci in {1,2,3}, code length 2..3.",
-    "outside": "ToText (its output is format!), FftStream numeric content, VectorSource/ConstantSource (C16/C09), StreamToPdu (std HashMap: SipHash/RandomState not "
+    "outside": "ToText (its output is format!), FftStream (numeric content: rustfft; framing: kani-compiler 0.68 internal error on the rayon branch reachable from work()), VectorSource/ConstantSource (C16/C09), StreamToPdu (std HashMap: SipHash/RandomState not "
                "encodable in budget), VecToStream/BurstTagger tags (C12).",
     "stubs": ["heap ring + stand-ins (C01)", "std::fmt::format -> empty"],
     "assumptions": ["Kani/CBMC soundness", "references in harness/src/c10.rs are the specification (written from doc comments)",
@@ -56,14 +56,8 @@ def all_harnesses():
                                       unwind=12, unit=("Add" if kind == 0 else "Xor") + "::work", timeout=900,
                                       shape={"block": nm, "la": la, "lb": lb, "cap": cap, "schedule": s}, core=(cap == 2 and si == 0 and la == 3 and lb == 2)))
             pass
-    for size in (2, 3):
-        for cap in (size, size + 1, 2 * size + 1):
-            for si, s in enumerate(([(1, cap)] * 3, [(cap, 0), (cap, 0), (cap, 1)], [(cap, 0), (1, 1), (cap, 1)], [(cap, cap), (cap, 0), (1, size)])):
-                L = 2 * size + 1
-                hs.append(Harness(f"c10_fftstream_n{size}_c{cap}_{sname(s)}", f"crate::c10::fft_stream({size}, {L}, {cap}, {rs_sched(s)}, {L + 5})",
-                                  unwind=14, unit="FftStream::work framing", timeout=1500,
-                                  shape={"block": "fftstream", "size": size, "L": L, "cap": cap, "schedule": s},
-                                  core=(size == 2 and cap == 5 and si in (1, 2)) or (size == 3 and cap == 4 and si == 2)))
+    # FftStream framing (c10::fft_stream with a stand-in engine) is written but cannot be compiled: kani-compiler 0.68
+    # panics (intrinsics.rs:243) on the rayon branch reachable from FftStream::work.  Outside the claim.
     for cap in (2, 3):
         for si, s in enumerate(S3[cap]):
             hs.append(Harness(f"c10_f2c_c{cap}_s{si}", f"crate::c10::float_to_complex(2, {cap}, {rs3(s)}, 5)", unwind=12,
